@@ -200,10 +200,19 @@ def run(case, ctx):
 def run_in(case, ctx, d, tmp, refdir, cwd, actdir, systmp, out):
     from tdda.referencetest.referencetest import ReferenceTest
     rec = c04.Recorder()
-    rt = ReferenceTest(rec)
-    rt.files.tmp_dir = tmp
-    rt.files.verbose = False
     binary = case['kind'] == 'binary'
+    if (len(case['bin'][0]) if binary else len(case['ref'])) % 2:
+        # the directory is configured (for the class, as a test module does
+        # at import) before it exists, and created before the first test
+        os.rmdir(tmp)
+        ReferenceTest.set_defaults(tmp_dir=tmp)
+        rt = ReferenceTest(rec)
+        os.makedirs(tmp)
+        out.label('tmp_dir:set_defaults-before-mkdir')
+    else:
+        rt = ReferenceTest(rec)
+        rt.files.tmp_dir = tmp
+    rt.files.verbose = False
     ref_path = os.path.join(refdir, 'result.bin' if binary else 'result.txt')
     act_path = os.path.join(actdir, 'result.bin' if binary else 'result.txt')
     if binary:
